@@ -306,7 +306,8 @@ def value_range(kind, w):
 class C07(Prop):
     id = "C07"
     module = "C07"
-    theorems = ["C07_put_bits", "C07_parse_bits", "C07_roundtrip", "C07_overflow"]
+    theorems = ["C07_put_bits", "C07_put_overflow"]
+    partial_note = "partial (in progress): the write half (exact bits, nothing else touched, no panic, overflow) is proved; the read half and the round trip are covered by the correspondence and the probes"
     rule = ("PUT/PARSE through the hook: 12 carrier kinds x widths 1..carrier x offsets 0..79 x values {boundary, one-hot, random; all values for widths <= 6 (thorough: <= 12)} "
             "x backgrounds {zeros, ones, random}, and reads/writes ending 1..16 bits past the end of the buffer; non-trivial = distinct operations")
 
@@ -1444,6 +1445,26 @@ class C01(Prop):
         return res.startswith("OK ") or res.startswith("D1 VMsg1")
 
 
+def _norm_strings(lay, v):
+    """what the public string constructors keep of the strings of a message value"""
+    k = lay["k"]
+    if k == "str":
+        return ("C", [from_char(c) for c in v[1][:lay["cap"]]])
+    if k == "utf8":
+        return ("C", utf8_prefix(v[1], 255))
+    if k == "struct":
+        return ("T", [_norm_strings(f, x) for (_, f), x in zip(lay["fields"], v[1])])
+    if k == "lenmid":
+        n1, n2 = len(lay["fields1"]), len(lay["fields2"])
+        out = [_norm_strings(f, x) for (_, f), x in zip(lay["fields1"], v[1][:n1])]
+        out += [_norm_strings(f, x) for (_, f), x in zip(lay["fields2"], v[1][n1:n1 + n2])]
+        out.append(("L", [_norm_strings(lay["elem"], x) for x in v[1][-1][1]]))
+        return ("T", out)
+    if k in ("veclen", "grid16"):
+        return ("L", [_norm_strings(lay["elem"], x) for x in v[1]])
+    return v
+
+
 def _group_sorted(m):
     lst = m[2][1][-1][1]
     groups = {}
@@ -1629,6 +1650,20 @@ class C20(Prop):
             for _ in range(3 if q else 100):
                 ops.append("SERDEFRAME %s" % hx(frame_of_payload(n, rng, rng.choice([20, 60, 200, 500]), "rand")))
         ops += ["SERDE VEmpty", "SERDE VCorrupt", "SERDE VMsgNotSupported(T{i4000})"]
+        # frames built byte by byte (not through any constructor): text of 250..255 bytes, descriptors at capacity
+        if 1029 in g.layouts:
+            for cps in ([0x6e2c] * 85, [0x44f] * 125 + [49, 50, 51, 52, 53], [97] * 127, [0x6e2c] * 84 + [0xe9, 97], [0x1f600] * 63 + [97, 98, 99]):
+                text = "".join(chr(c) for c in cps).encode("utf-8")
+                b = set_bits(bytes(9 + len(text)), 0, 12, 1029)
+                b = set_bits(b, 57, 7, len(cps))
+                b = set_bits(b, 64, 8, len(text))
+                ops.append("SERDEFRAME %s" % hx(mkframe(b[:9] + text)))
+        if 1007 in g.layouts:
+            for n in (31, 30, 16):
+                desc = bytes(rng.choice([233, 252, 65, 255, 128]) for _ in range(n))
+                b = set_bits(bytes(4 + n + 1), 0, 12, 1007)
+                b = set_bits(b, 24, 8, n)
+                ops.append("SERDEFRAME %s" % hx(mkframe(b[:4] + desc + b"\x07")))
         return ops
 
     def proj(self, op, res):
@@ -1641,9 +1676,18 @@ class C20(Prop):
             t = res.split(" ")
             if t[3] == "true" and t[1] != "true":
                 return "message differs after a serde round trip"
-            # descriptor strings: the harness conversion truncates like the public constructor; compare text too
-            if op.startswith("SERDE ") and t[3] == "true":
-                pass
+            # the serialised tree must be the input message (strings as the public constructors keep them)
+            if op.startswith("SERDE VMsg") and not op.startswith("SERDE VMsgNot"):
+                g = get_gen(ctx)
+                try:
+                    want = vt.parse_msg(op.split(" ")[1])
+                    got = vt.parse_msg(t[4])
+                except Exception:
+                    return None
+                if want[0] == "Msg" and want[1] in g.layouts:
+                    w = _norm_strings(g.layouts[want[1]], want[2])
+                    if got[0] != "Msg" or got[1] != want[1] or vt.show(got[2]) != vt.show(w):
+                        return "the message that serde hands back differs from the one put in (type %d)" % want[1]
         if res.startswith("DEERR") or res.startswith("SERERR"):
             return "serde round trip failed: %s" % res[:60]
         return None
